@@ -34,6 +34,9 @@ pub mod rustls;
 pub mod tcp;
 pub mod udp;
 
+#[cfg(feature = "ezk-verif")]
+pub use parse::{parse_complete, CompleteItem};
+
 /// Abstraction over a transport factory.
 ///
 /// It is used to created connection oriented transports
